@@ -26,6 +26,7 @@ func init() {
 		c03AdmittedStates(c, "C04.6b", map[string]bool{"Close/closeTransport(discard)": true}) // … including one that is already closing gracefully
 		c20Ids(c, "C04.5")
 		c04IdUse(c)
+		c20MapRecheck(c, "C04.7") // the client table is a types.Map: an unregister whose LoadAndDelete decides on a stale snapshot leaves a closed session registered
 	})
 }
 
